@@ -54,11 +54,12 @@ SPEC (a batch is the next `n ≥ 1` inputs in link order, none twice, none skipp
 protocol model `Blue.WcqV`, but `Blue.ConcLog` does not contain `Blue.WcqV` as a sub-machine (no
 refinement theorem between the two); (ii) a failing `write`/`flush` (every member gets the `Err`;
 `self.written` has already advanced), `table_full`/`rollover_size`, and `ConcurrentLogBuilder::fsync()`
-(an entry `0` in the fsync queue) are not in `Blue.ConcLog`; (iii) the driver is NOT extended: the
-composed model is tied to the code through its parts — the framing bytes (sequential and concurrent
-streams: final file = `writeAll` of the observed merge), the fsync-core rounds (replayed through
-`Blue.FsyncCore.rstep`, fdatasync probe) and the queue runs (C18's streams) are each compared by the
-existing streams — not as a whole. -/
+(an entry `0` in the fsync queue) are not in `Blue.ConcLog`; (iii) the composed model is replayed
+by the driver as a whole (request `conclog`, `Blue.Driver.C12.handleConc`: an event list rebuilt from
+the observed merge, the rounds of the fsync queue and the fdatasync probe of real N-thread runs) on
+SAMPLED schedules only; the interleaving of links with writes and of writes with fsync rounds is not
+observed but constructed (a call issued at file length `L` sees the records ending at or before `L`),
+and the queues' wake-up protocol stays with C18's streams. -/
 namespace Blue.Props.C12
 open Blue.Log
 
